@@ -39,6 +39,16 @@ def check(ck):
     ck.rule('R18.4', 'get_in and assoc_path, with which a query is answered, keep their recursion skeleton')
     H.get_in_shape(ck, 'R18.4')
     H.assoc_path_shape(ck, 'R18.4')
+    ck.rule('R18.5', 'paths_to_dict (query results) places each value at '
+            'its own path; make_path_dict (path timeseries) reads each '
+            'value at its whole path')
+    H.paths_to_dict_shape(ck, 'R18.5')
+    H.make_path_dict_shape(ck, 'R18.5')
+    from . import c14
+    ck.shared('R18.6', 'reading the emitted data back rebuilds every '
+              'container element by element: the list and dict '
+              'deserializers apply deserialize_value to every element',
+              c14.r14_4)
 
 
 def tainted_names(f):
@@ -179,22 +189,25 @@ def r18_2(ck):
             'leaf per row')
     f = ck.fn('timeseries_from_data', 'core.emitter')
     data = A.params_of(f.node)[0]
-    tv = None
-    for d in [x for lst in local_defs(f.node).values() for x in lst]:
-        if d.value is not None and (data + '.keys()') in A.unparse(d.value):
-            tv = d
-    ck.require(tv is not None, 'R18.2', f, f.node.name,
-               'the time vector is taken from the keys of the data', None)
-    if tv is not None:
-        v = tv.value
+    # what is stored under 'time' (through a local or directly)
+    from ..dataflow import expand
+    tstores = [s2 for s2 in A.walk_no_nested(f.node)
+               if isinstance(s2, ast.Assign) and isinstance(
+                   s2.targets[0], ast.Subscript) and A.subscript_key(
+                   s2.targets[0]) == 'time']
+    ck.require(bool(tstores), 'R18.2', f, "embedded_timeseries['time']",
+               "the time vector is stored under 'time'", None)
+    for s2 in tstores:
+        v = expand(f.node, s2.value, s2)
         ok = isinstance(v, ast.Call) and A.is_name(v.func, 'list') and \
-            A.unparse(v.args[0]) == data + '.keys()'
-        ck.require(ok, 'R18.2', f, tv.stmt,
+            len(v.args) == 1 and A.unparse(v.args[0]) in (
+                data + '.keys()', data)
+        ck.require(ok, 'R18.2', f, s2,
                    'the time vector is list(data.keys()): the insertion '
                    'order shared with data.values()',
                    'the time vector is %s: ordered independently of the '
                    'rows, so values no longer line up with their times'
-                   % A.unparse(v), tv.stmt)
+                   % A.unparse(v), s2)
     loops = [n for n in A.walk_no_nested(f.node) if isinstance(n, ast.For)]
     ok = len(loops) == 1 and A.unparse(loops[0].iter) == data + '.values()'
     ck.require(ok, 'R18.2', f, loops[0] if loops else f.node.name,
@@ -216,12 +229,6 @@ def r18_2(ck):
             ck.require(ok, 'R18.2', f, calls[0],
                        'no row is skipped (other than non-dict rows)',
                        'rows are skipped under %s' % sorted(g), calls[0])
-    ok = any(isinstance(s, ast.Assign) and isinstance(
-        s.targets[0], ast.Subscript) and A.subscript_key(
-        s.targets[0]) == 'time' and tv is not None and A.is_name(
-        s.value, tv.name) for s in A.walk_no_nested(f.node))
-    ck.require(ok, 'R18.2', f, "embedded_timeseries['time']",
-               "the time vector is stored under 'time'", None)
     # value_in_embedded_dict
     v = ck.fn('value_in_embedded_dict', 'library.dict_utils')
     cfg = cfg_of(v.node)
